@@ -52,6 +52,9 @@ def jobs(tier):
                     js.append({"for": "C16", "country": country, "lang": lang, "method": "fifo", "filter": filt, "shape": "BIS+I"})
                 if country == "us" and (tier == "thorough" or filt == "from"):
                     js.append({"for": "C16", "country": country, "lang": lang, "method": "fifo", "filter": filt, "shape": "BS+B", "symbolic_instants": True})
+        if country in ("us", "generic"):
+            # the method given by an [accounting_methods] section with a single year instead of -m
+            js.append({"for": "C16", "country": country, "lang": LANGS[country][0], "method": "lifo", "filter": "none", "shape": "BS+B", "config_schedule": 2019})
         for method in METHODS[country]:
             if method != "fifo":
                 for filt in ("none",) if tier == "quick" else ("none", "from", "to", "from-to"):
@@ -66,7 +69,7 @@ def select(prop, spec):
 def describe(spec):
     if spec["for"] == "C14":
         return "C14 %s subject=%s:%s filter=%s %s B2=%s%s" % (spec["country"], spec["subject"][0], spec["subject"][1], spec["filter"], spec["method"], spec["b2"], " +sell" if spec.get("b1sell") else "") + (" B1=hold-only" if spec.get("b1") == "hold" else "") + (" offset=shared" if spec.get("off") else "")
-    return "C16 %s lang=%s %s filter=%s %s%s" % (spec["country"], spec["lang"], spec["method"], spec["filter"], spec["shape"], " symbolic-instants" if spec.get("symbolic_instants") else "")
+    return "C16 %s lang=%s %s filter=%s %s%s" % (spec["country"], spec["lang"], spec["method"], spec["filter"], spec["shape"], " symbolic-instants" if spec.get("symbolic_instants") else "") + (" [accounting_methods] %d" % spec["config_schedule"] if spec.get("config_schedule") else "")
 
 
 def weight(spec):
@@ -107,12 +110,12 @@ def _dates(S, spec, years):
     return from_date, to_date
 
 
-def _compute(S, cfg, method, hists):
+def _compute(S, cfg, method, hists, year="2020"):
     from rp2.accounting_engine import AccountingEngine  # pylint: disable=import-outside-toplevel
     from rp2.rp2_error import RP2ValueError  # pylint: disable=import-outside-toplevel
     from rp2.tax_engine import compute_tax  # pylint: disable=import-outside-toplevel
 
-    engine = AccountingEngine(method_tree({"2020": method}))
+    engine = AccountingEngine(method_tree({year: method}))
     cds = {}
     for asset, h in hists.items():
         inp = h.build(cfg, asset)
@@ -274,13 +277,14 @@ def run_c16(S, spec):
     h2 = Hist(S, s2, years, prefix="y", fixed_t=[us_of(2020, 12, 31, 23, 59, 59)][: len(s2)] if fixed else None)
     from_date, to_date = _dates(S, spec, years)
     cfg = make_cfg(country, from_date=from_date, to_date=to_date, allow_negative=True)
-    cds = _compute(S, cfg, spec["method"], {"B1": h1, "B2": h2})
+    cds = _compute(S, cfg, spec["method"], {"B1": h1, "B2": h2}, year=str(spec.get("config_schedule") or 2020))
     if cds is None:
         return "error"
     ran = []
     for gen in sorted(cfg.country.get_report_generators()):
         _reset(gen)
-        rec, err = reportlib.generate(S, gen, cfg.country, cds, {1970: spec["method"]}, cfg.from_date, cfg.to_date, lang=spec["lang"])
+        names = {spec["config_schedule"]: spec["method"]} if spec.get("config_schedule") else {1970: spec["method"]}
+        rec, err = reportlib.generate(S, gen, cfg.country, cds, names, cfg.from_date, cfg.to_date, lang=spec["lang"])
         if err is not None:
             if gen == "jp.tax_report_jp" and isinstance(err, RP2RuntimeError) and "To and From Dates can not be specified" in str(err) and from_date is not None and to_date is not None:
                 ran.append(gen + ":refused")
